@@ -115,4 +115,4 @@ def write_tree(root, files=None, dirs=None, symlinks=None):
     for rel, target in (symlinks or {}).items():
         p = os.path.join(root, rel)
         os.makedirs(os.path.dirname(p), exist_ok=True)
-        os.symlink(target, p)
+        os.symlink(target.replace("{PROBE}", os.environ.get("MSV_PROBE", "/verif/.cache/target-ffi/debug/libmsv_ffi_probe.so")), p)
